@@ -5,7 +5,7 @@
    the data length; everything inside its allocation) — both defined in C13/Model.v. *)
 From Coq Require Import List ZArith Bool.
 From TskVerif Require Import Base.Common C13.Model C13.Rep C13.ColsProofs C13.UpdateProofs
-  C13.KeepProofs C13.RefineProofs C13.PackProofs C13.Findings.
+  C13.KeepProofs C13.RefineProofs C13.PackProofs C13.TotalProofs C13.Findings.
 Import ListNotations.
 Open Scope Z_scope.
 
@@ -17,6 +17,14 @@ Theorem c13_add_row : forall d t r t',
   WF d t -> row_ok d r = true -> add_row d t r = Ok t' ->
   WF d t' /\ abs t' = abs t ++ [r].
 Proof. exact add_row_refines. Qed.
+
+(* add_row is total and memory-safe in the model: under the invariant, and below the
+   2^31-row / 2^64-cell limits of the C code ([fits]), it returns Ok — never an out-of-bounds
+   store (OOB), never a failed tsk_bug_assert *)
+Theorem c13_add_row_total : forall d t r,
+  WF d t -> row_ok d r = true -> fits t r ->
+  exists t', add_row d t r = Ok t' /\ WF d t' /\ abs t' = abs t ++ [r].
+Proof. exact add_row_complete. Qed.
 
 Theorem c13_truncate : forall d t m t',
   WF d t -> truncate t m = Ok t' -> WF d t' /\ abs t' = firstn (Z.to_nat m) (abs t).
